@@ -29,7 +29,7 @@ def td_part(run):
 
 
 def check(run):
-    return lifecycle.check(run, "C18", ["tls-server", "tls-mtls"], extra=td_part)
+    return lifecycle.check(run, "C18", ["tls-server", "tls-mtls", "tls-anycert"], extra=td_part)
 
 
 def replay(run, path):
